@@ -29,7 +29,7 @@ SPEC = dict(
                  "--ignore-vcs-tag is the documented opt-out: only 'tags do not influence the start' is asserted there",
                  "day-of-year 366 in a non-leap year is not generated (the statement does not say whether it matches)"],
     required=["tags_omitting_an_optional_calendar_part", "real_git_head_without_commit", "fake_runs", "real_git_runs", "scope:default", "scope:global", "scope:branch", "ignore_runs",
-              "impossible_date_tags", "tie_cases", "uniqueness_checked", "no_matching_tag_cases", "cli_tag_scope_overrides", "show_pep440_line_checked", "fetch_failure_cases", "legacy_pattern_runs", "line_separator_in_tag_name", "non_utf8_tag_names", "real_git_column_ui_always", "unicode_blank_at_tag_edge",
+              "impossible_date_tags", "tie_cases", "uniqueness_checked", "no_matching_tag_cases", "cli_tag_scope_overrides", "show_pep440_line_checked", "fetch_failure_cases", "legacy_pattern_runs", "line_separator_in_tag_name", "non_utf8_tag_names", "non_utf8_bytes_inside_a_version_text", "real_git_column_ui_always", "unicode_blank_at_tag_edge",
               "planned_result_is_a_pep440_equal_tag_elsewhere", "fake_hg_runs", "hg_changesets_with_several_tags"],
     anchors=[("cli", "_parse_version_tags"), ("cli", "get_latest_vcs_version_tag"), ("cli", "_update_cfg_from_vcs"),
              ("vcs", "get_tags"), ("v2version", "is_valid"), ("v1version", "is_valid")],
@@ -319,6 +319,15 @@ def run_fake(ctx, case):
         raw_extra = b""
         if R.random() < 0.1 and not use_hg:
             raw_extra = b"caf\xe9-nightly\n"      # a tag name that is not valid UTF-8 (git does not care)
+            # ... and one that WOULD be a (high) matching version if the undecodable bytes were dropped
+            _d, hst = gen.gen_state(R, names)
+            hst.update(major=779, year_y=2095, year_g=2095)
+            hrs = gen.reachable(ast, hst, tdy)
+            if hrs and not projects._week53(names, hrs[1]):
+                hb = hrs[0].encode("utf-8")
+                cut = R.randrange(0, len(hb) + 1)
+                raw_extra += hb[:cut] + R.choice([b"\xff", b"\xfe\xff", b"\xc3", b"\xe2\x82"]) + hb[cut:] + b"\n"
+                ctx.count("non_utf8_bytes_inside_a_version_text")
             kinds.add("non-utf8-name")
             ctx.count("non_utf8_tag_names")
         if use_hg:
